@@ -57,6 +57,8 @@ def check(ctx, rep):
     an, program = ctx.analyzer, ctx.program
     C04.strip_rule(ctx, rep, FQ, 'C18a')
     provenance(ctx, rep, 'C18b')
+    from . import C01
+    C01.value_text(ctx, rep, 'C18b')
     n = add_fwd(rep, forwarding(an, program, ['include_plus'], callers={FQ}), 'C18c')
     rep.floor('FWD', 'include_plus forwarding in condense_to_mass_mods', n, 1)
     add_ret(rep, param_reaches_returns(an, program, FQ, ['sequence', 'include_plus', 'precision']), 'C18c')
